@@ -1,6 +1,7 @@
 package main
 
 import (
+	"go/token"
 	"encoding/json"
 	"fmt"
 	"go/ast"
@@ -312,7 +313,7 @@ func (lf *layoutFacts) absoluteHeaderReads(fd *ast.FuncDecl, skinds []string) (d
 		ast.Inspect(bodies[i].Body, func(n ast.Node) bool {
 			if ce, ok := n.(*ast.CallExpr); ok {
 				if fn := g.calleeOf(ce); fn != nil && !fn.Exported() && !strings.HasPrefix(fn.Name(), "get") {
-					if hd := g.decls[fn]; hd != nil && hd.Body != nil && !seenDecl[hd] && hd.Recv == nil {
+					if hd := g.decls[fn]; hd != nil && hd.Body != nil && !seenDecl[hd] && (hd.Recv == nil || recvTypeName(g, hd) == "Lexer") {
 						seenDecl[hd] = true
 						bodies = append(bodies, hd)
 					}
@@ -322,7 +323,30 @@ func (lf *layoutFacts) absoluteHeaderReads(fd *ast.FuncDecl, skinds []string) (d
 		})
 	}
 	for _, body := range bodies {
+		// integer locals with a value known from straight-line constant assignments (cursor := 16; cursor += 8)
+		env := map[types.Object]int{}
 		ast.Inspect(body.Body, func(n ast.Node) bool {
+			if as, ok := n.(*ast.AssignStmt); ok && len(as.Lhs) == 1 && len(as.Rhs) == 1 {
+				if id, ok := as.Lhs[0].(*ast.Ident); ok {
+					obj := g.info.ObjectOf(id)
+					if tv, ok := g.info.Types[as.Rhs[0]]; ok && tv.Value != nil && obj != nil {
+						if v, ok := constant.Int64Val(constant.ToInt(tv.Value)); ok {
+							switch as.Tok {
+							case token.DEFINE, token.ASSIGN:
+								env[obj] = int(v)
+							case token.ADD_ASSIGN:
+								if cur, known := env[obj]; known {
+									env[obj] = cur + int(v)
+								}
+							default:
+								delete(env, obj)
+							}
+						}
+					} else if obj != nil {
+						delete(env, obj)
+					}
+				}
+			}
 			ce, ok := n.(*ast.CallExpr)
 			if !ok {
 				return true
@@ -342,6 +366,11 @@ func (lf *layoutFacts) absoluteHeaderReads(fd *ast.FuncDecl, skinds []string) (d
 				if tv, ok := g.info.Types[e]; ok && tv.Value != nil {
 					if v, ok := constant.Int64Val(constant.ToInt(tv.Value)); ok {
 						return int(v), true
+					}
+				}
+				if id, ok := e.(*ast.Ident); ok {
+					if v, known := env[g.info.ObjectOf(id)]; known {
+						return v, true
 					}
 				}
 				return 0, false
